@@ -139,6 +139,10 @@ func AllocLimit(n int) {}
 // AllocCut ends (without verdict) every path that allocates an input-sized buffer larger than n: a stated cut (engine only).
 func AllocCut(n int) {}
 
+// AllocCeiling makes any single make() of more than n elements - whether its size is symbolic or
+// not - a violation (engine only; natively the harness checks what it can observe).
+func AllocCeiling(n int) {}
+
 func Assume(c bool) {
 	if !c {
 		panic(assumeFailed{"assumption false"})
